@@ -26,9 +26,18 @@ Paths == << <<111, 117, 116>>, <<111, 117, 116, 46, 116, 120, 116>>, <<111, 117,
             <<46, 104, 105, 100, 100, 101, 110>>, <<111, 117, 116, 46>>, <<97, 32, 98, 47, 99, 32, 100>>,
             <<100, 46, 118, 49, 47, 46, 104>>, <<120, 46, 121, 46, 122>> >>
 
-SaveCases == [fn : {"save"}, npts : 1..4, ndim : {2, 3}, sem : 0..NStr, path : 1..Len(Paths)]
-PlotCases == {c \in [fn : {"plot"}, npts : 1..4, swap : BOOLEAN, dc : {"none", "true", "array"},
-                     sample : BOOLEAN, sem : {0, 3}, axgiven : BOOLEAN] : c.dc = "true" => c.npts >= 3}
+(* the contour object: a stand-in with npts points, or a real contour of one of the 2-D classes  *)
+(* (then npts is only a place holder).  aspath: the path is handed over as a pathlib.Path.       *)
+RealObjs == {"iform", "isorm", "hdc", "ds", "and", "or"}
+Objs == {"standin"} \cup RealObjs
+SaveCases == {c \in [fn : {"save"}, obj : Objs, npts : 1..4, ndim : {2, 3}, sem : 0..NStr,
+                     path : 1..Len(Paths), aspath : BOOLEAN] :
+                /\ (c.obj # "standin" => c.npts = 4 /\ c.ndim = 2 /\ c.sem \in {0, 3} /\ c.path \in {1, 2, 4})
+                /\ (c.aspath => c.sem \in {0, 3} /\ c.npts \in {2, 4})}
+PlotCases == {c \in [fn : {"plot"}, obj : Objs, npts : 1..4, swap : BOOLEAN, dc : {"none", "true", "array"},
+                     sample : BOOLEAN, sem : {0, 3}, axgiven : BOOLEAN] :
+                /\ (c.dc = "true" => c.npts >= 3)
+                /\ (c.obj # "standin" => c.npts = 4 /\ ~c.axgiven)}
 
 (* model coordinates, units of 1e-7 *)
 V7 == <<12345675, -5, 25000000, 30000005, 0, -99999995, 4, 15, -12345685, 999999995>>
@@ -128,9 +137,9 @@ ClosedPolyline == Drawn =>
 GenSpec == Init /\ [][UNCHANGED vars]_vars
 CaseJson(c) ==
     IF c.fn = "save"
-    THEN [fn |-> "save", npts |-> c.npts, ndim |-> c.ndim, sem |-> c.sem,
+    THEN [fn |-> "save", obj |-> c.obj, aspath |-> c.aspath, npts |-> c.npts, ndim |-> c.ndim, sem |-> c.sem,
           names |-> Names(c), units |-> Units(c), path |-> Paths[c.path]]
-    ELSE [fn |-> "plot", npts |-> c.npts, swap |-> c.swap, dc |-> c.dc, sample |-> c.sample, sem |-> c.sem,
+    ELSE [fn |-> "plot", obj |-> c.obj, npts |-> c.npts, swap |-> c.swap, dc |-> c.dc, sample |-> c.sample, sem |-> c.sem,
           axgiven |-> c.axgiven,
           names |-> [d \in 1..2 |-> NameOf(c.sem, d)], units |-> [d \in 1..2 |-> UnitOf(c.sem, d)],
           symbols |-> [d \in 1..2 |-> SymbolOf(c.sem, d)]]
